@@ -2,362 +2,37 @@
    programs, proved sound for EVERY loop count, EVERY branch outcome and EVERY fault oracle whose
    exception kinds lie in a given list (loops by a checked inductive invariant).  The property theorems
    are then instances: the checker is evaluated on the generated pipeline by vm_compute. *)
-From Coq Require Import List Bool Arith Lia.
+From Coq Require Import List Bool Arith Lia NArith.
 Import ListNotations.
 From SCMO Require Import Lib.StatusLang.
 
-(* ---------------------------------------------------------------- finite sets *)
-Section FSet.
-  Variable A : Type.
-  Variable eqb : A -> A -> bool.
-  Hypothesis eqb_eq : forall a b, eqb a b = true <-> a = b.
+(* ---------------------------------------------------------------- sets of worlds as bit sets
+   A world is numbered by [code]; a set of worlds is an N whose bit [code w] says whether w is in it.
+   (Nothing below needs [code] to be injective: a collision could only make a set larger, which keeps
+   the analysis an over-approximation.) *)
+Definition bN (b : bool) : N := if b then 1%N else 0%N.
+Definition code (w : world) : N :=
+  (match st w with SNone => 0 | SUnfinished => 1 | SFail => 2 | SOk => 3 | SOther => 4 end * 32
+   + bN (ex w) * 16 + bN (co w) * 8 + bN (so w) * 4 + bN (ix w) * 2 + bN (lost w))%N.
 
-  Definition mem (x : A) (l : list A) : bool := existsb (eqb x) l.
+Definition wset := N.
+Definition wmem (w : world) (S : wset) : bool := N.testbit S (code w).
+Definition wadd (w : world) (S : wset) : wset := N.setbit S (code w).
 
-  Lemma mem_In x l : mem x l = true <-> In x l.
-  Proof.
-    unfold mem. rewrite existsb_exists. split.
-    - intros (y & Hy & He). apply eqb_eq in He. subst. assumption.
-    - intros H. exists x. split; [assumption|]. apply eqb_eq. reflexivity.
-  Qed.
+Lemma wmem_union w a b : wmem w (N.lor a b) = wmem w a || wmem w b.
+Proof. unfold wmem. apply N.lor_spec. Qed.
 
-  Fixpoint union (a b : list A) : list A :=
-    match a with
-    | [] => b
-    | x :: a' => let u := union a' b in if mem x u then u else x :: u
-    end.
+Lemma wmem_union_l w a b : wmem w a = true -> wmem w (N.lor a b) = true.
+Proof. intros H. rewrite wmem_union, H. reflexivity. Qed.
+Lemma wmem_union_r w a b : wmem w b = true -> wmem w (N.lor a b) = true.
+Proof. intros H. rewrite wmem_union, H. apply orb_true_r. Qed.
 
-  Lemma In_union x a b : In x (union a b) <-> In x a \/ In x b.
-  Proof.
-    induction a as [|y a IH]; cbn [union].
-    - cbn. tauto.
-    - destruct (mem y (union a b)) eqn:Hm.
-      + apply mem_In in Hm. rewrite IH in *. cbn. split; [tauto|].
-        intros [[->|H]|H]; tauto.
-      + cbn. rewrite IH. tauto.
-  Qed.
-
-  Definition subsetb (a b : list A) : bool := forallb (fun x => mem x b) a.
-
-  Lemma subsetb_spec a b : subsetb a b = true -> forall x, In x a -> In x b.
-  Proof.
-    unfold subsetb. rewrite forallb_forall. intros H x Hx. apply mem_In. apply H. assumption.
-  Qed.
-End FSet.
-
-Definition world_eqb (a b : world) : bool :=
-  status_eqb (st a) (st b) && Bool.eqb (ex a) (ex b) && Bool.eqb (co a) (co b) &&
-  Bool.eqb (so a) (so b) && Bool.eqb (ix a) (ix b) && Bool.eqb (lost a) (lost b).
-
-Lemma status_eqb_eq a b : status_eqb a b = true <-> a = b.
-Proof. destruct a, b; cbn; split; intros H; try reflexivity; discriminate. Qed.
-
-Lemma world_eqb_eq a b : world_eqb a b = true <-> a = b.
+Definition wsubset (a b : wset) : bool := N.eqb (N.lor a b) b.
+Lemma wsubset_spec a b : wsubset a b = true -> forall w, wmem w a = true -> wmem w b = true.
 Proof.
-  destruct a as [s1 a1 b1 c1 d1 e1], b as [s2 a2 b2 c2 d2 e2]. unfold world_eqb. cbn [st ex co so ix lost].
-  split.
-  - intros H. repeat (apply andb_prop in H; destruct H as [H ?]).
-    apply status_eqb_eq in H.
-    repeat match goal with X : Bool.eqb _ _ = true |- _ => apply eqb_prop in X end.
-    subst. reflexivity.
-  - intros H. inversion H; subst. rewrite !eqb_reflx.
-    replace (status_eqb s2 s2) with true by (symmetry; apply status_eqb_eq; reflexivity). reflexivity.
+  unfold wsubset. intros H w Hw. apply N.eqb_eq in H. rewrite <- H. apply wmem_union_l. exact Hw.
 Qed.
 
-Definition ekind_eqb (a b : ekind) : bool :=
-  match a, b with
-  | KRuntime, KRuntime | KValue, KValue | KOS, KOS | KTimeout, KTimeout | KMemory, KMemory
-  | KOther, KOther | KBase, KBase => true
-  | _, _ => false
-  end.
-Lemma ekind_eqb_eq a b : ekind_eqb a b = true <-> a = b.
-Proof. destruct a, b; cbn; split; intros H; try reflexivity; discriminate. Qed.
-
-Definition res_eqb (a b : res) : bool :=
-  match a, b with
-  | RNormal, RNormal => true
-  | RRaised x, RRaised y => ekind_eqb x y
-  | _, _ => false
-  end.
-Lemma res_eqb_eq a b : res_eqb a b = true <-> a = b.
-Proof.
-  destruct a as [|x], b as [|y]; cbn; split; intros H; try reflexivity; try discriminate.
-  - apply ekind_eqb_eq in H. subst. reflexivity.
-  - inversion H. apply ekind_eqb_eq. reflexivity.
-Qed.
-
-Definition tw : Type := (res * world)%type.     (* an outcome: how the program ended, and the world *)
-Definition tw_eqb (a b : tw) : bool := res_eqb (fst a) (fst b) && world_eqb (snd a) (snd b).
-Lemma tw_eqb_eq a b : tw_eqb a b = true <-> a = b.
-Proof.
-  destruct a as [r1 w1], b as [r2 w2]. unfold tw_eqb. cbn [fst snd]. split.
-  - intros H. apply andb_prop in H. destruct H as [H1 H2].
-    apply res_eqb_eq in H1. apply world_eqb_eq in H2. subst. reflexivity.
-  - intros H. inversion H; subst. apply andb_true_intro. split; [apply res_eqb_eq | apply world_eqb_eq]; reflexivity.
-Qed.
-
-Definition wunion := union world world_eqb.
-Definition tunion := union tw tw_eqb.
-Definition wsubsetb := subsetb world world_eqb.
-Definition In_wunion := In_union world world_eqb world_eqb_eq.
-Definition In_tunion := In_union tw tw_eqb tw_eqb_eq.
-Definition wsubsetb_spec := subsetb_spec world world_eqb world_eqb_eq.
-
-Definition wdedup (l : list world) : list world := wunion l [].
-Definition tdedup (l : list tw) : list tw := tunion l [].
-Lemma In_wdedup x l : In x (wdedup l) <-> In x l.
-Proof. unfold wdedup. rewrite In_wunion. cbn. tauto. Qed.
-Lemma In_tdedup x l : In x (tdedup l) <-> In x l.
-Proof. unfold tdedup. rewrite In_tunion. cbn. tauto. Qed.
-
-(* ---------------------------------------------------------------- collecting semantics *)
-Record ares := mkA { outs : list tw; okf : bool }.
-
-Definition in_res (a : ares) (r : res) (w : world) : Prop := In (r, w) (outs a).
-
-Definition is_normal (r : res) : bool := match r with RNormal => true | _ => false end.
-
-Definition normals (o : list tw) : list world :=
-  wdedup (flat_map (fun t => if is_normal (fst t) then [snd t] else []) o).
-Definition raisedk (k : ekind) (o : list tw) : list world :=
-  wdedup (flat_map (fun t => if res_eqb (fst t) (RRaised k) then [snd t] else []) o).
-Definition raised_part (o : list tw) : list tw := filter (fun t => negb (is_normal (fst t))) o.
-
-Lemma In_normals w o : In (RNormal, w) o -> In w (normals o).
-Proof.
-  intros H. unfold normals. apply In_wdedup. apply in_flat_map. exists (RNormal, w). split; [assumption|].
-  cbn. left. reflexivity.
-Qed.
-
-Lemma In_raisedk k w o : In (RRaised k, w) o -> In w (raisedk k o).
-Proof.
-  intros H. unfold raisedk. apply In_wdedup. apply in_flat_map. exists (RRaised k, w). split; [assumption|].
-  cbn [fst snd]. replace (res_eqb (RRaised k) (RRaised k)) with true by (symmetry; apply res_eqb_eq; reflexivity).
-  cbn. left. reflexivity.
-Qed.
-
-Lemma In_raised_part k w o : In (RRaised k, w) o -> In (RRaised k, w) (raised_part o).
-Proof. intros H. unfold raised_part. apply filter_In. split; [assumption | reflexivity]. Qed.
-
-Definition mark_w (b : bool) (w : world) : world :=
-  if b then mkW (st w) (ex w) (co w) (so w) (ix w) true else w.
-
-Section Analysis.
-  Variable ks : list ekind.      (* the exception kinds a failing step may raise *)
-
-  Definition r_step (e : eff) (S : list world) : ares :=
-    mkA (tdedup (map (fun w => (RNormal, apply e w)) S ++
-                 flat_map (fun k => map (fun w => (RRaised k, w)) S) ks ++
-                 flat_map (fun k => map (fun w => (RRaised k, partial e w)) S) ks)) true.
-
-  Definition seq_res (F G : list world -> ares) (S : list world) : ares :=
-    let ra := F S in
-    let rb := G (normals (outs ra)) in
-    mkA (tunion (raised_part (outs ra)) (outs rb)) (okf ra && okf rb).
-
-  Definition loop_one (h : eff) (F : list world -> ares) : list world -> ares := seq_res (r_step h) F.
-
-  Fixpoint grow (fuel : nat) (F : list world -> ares) (I : list world) : list world :=
-    match fuel with
-    | O => I
-    | S k => let I' := wunion (normals (outs (F I))) I in if wsubsetb I' I then I else grow k F I'
-    end.
-
-  Definition loop_fuel : nat := 64.
-
-  Definition loop_res (h : eff) (F : list world -> ares) (S : list world) : ares :=
-    let I := grow loop_fuel (loop_one h F) S in
-    let r1 := loop_one h F I in
-    let rl := r_step ENop I in
-    mkA (tunion (raised_part (outs r1)) (outs rl))
-        (okf r1 && wsubsetb (normals (outs r1)) I && wsubsetb S I).
-
-  (* what the handler does with the outcomes of kind k of the body *)
-  Definition handle_k (mkb reraise : bool) (H : list world -> ares) (o : list tw) (k : ekind) : ares :=
-    let hk := H (wdedup (map (mark_w mkb) (raisedk k o))) in
-    mkA (raised_part (outs hk) ++
-         map (fun w => (if reraise then RRaised k else RNormal, w)) (normals (outs hk))) (okf hk).
-
-  Definition try_res (mkb reraise : bool) (hs : list hclass) (F H : list world -> ares) (S : list world) : ares :=
-    let rb := F S in
-    let pass := filter (fun t => match fst t with RNormal => true | RRaised k => negb (catches hs k) end) (outs rb) in
-    let caught := filter (catches hs) all_kinds in
-    mkA (tdedup (pass ++ flat_map (fun k => outs (handle_k mkb reraise H (outs rb) k)) caught))
-        (okf rb && forallb (fun k => okf (handle_k mkb reraise H (outs rb) k)) caught).
-
-  Definition choice_res (F G : list world -> ares) (S : list world) : ares :=
-    let ra := F S in
-    let rb := G S in
-    mkA (tunion (outs ra) (outs rb)) (okf ra && okf rb).
-
-  (* [sound F run]: F over-approximates what [run] can do from any configuration whose world is in S *)
-  Definition sound (F : list world -> ares) (run : cfg -> res * cfg) : Prop :=
-    forall S s r s', okf (F S) = true -> In (wd s) S -> run s = (r, s') -> in_res (F S) r (wd s').
-
-  Variable f : nat -> fault.
-  Hypothesis f_kinds : forall i, match f i with FNone => True | FBefore k => In k ks | FPartial k => In k ks end.
-
-  Lemma step_sound l e : sound (r_step e) (step f l e).
-  Proof.
-    intros S s r s' _ Hin Hst. unfold step in Hst. unfold r_step, in_res. cbn [outs].
-    pose proof (f_kinds (cn s)) as Hk.
-    apply In_tdedup. rewrite !in_app_iff.
-    destruct (f (cn s)) as [|k|k]; inversion Hst; subst; clear Hst; cbn [wd].
-    - left. apply in_map_iff. exists (wd s). split; [reflexivity | assumption].
-    - right. left. apply in_flat_map. exists k. split; [assumption|].
-      apply in_map_iff. exists (wd s). split; [reflexivity | assumption].
-    - right. right. apply in_flat_map. exists k. split; [assumption|].
-      apply in_map_iff. exists (wd s). split; [reflexivity | assumption].
-  Qed.
-
-  Lemma seq_sound F G ra rb : sound F ra -> sound G rb ->
-    sound (seq_res F G) (fun s => let (r, s1) := ra s in match r with RNormal => rb s1 | _ => (r, s1) end).
-  Proof.
-    intros HF HG S s r s' Hok Hin Hex. unfold seq_res, in_res in *. cbn zeta in *. cbn [okf outs] in *.
-    apply andb_prop in Hok. destruct Hok as [Hoka Hokb].
-    destruct (ra s) as [r1 s1] eqn:Ha.
-    pose proof (HF S s r1 s1 Hoka Hin Ha) as H1. unfold in_res in H1.
-    apply In_tunion.
-    destruct r1 as [|k].
-    - right. apply (HG _ s1 r s' Hokb); [apply In_normals; exact H1 | exact Hex].
-    - inversion Hex; subst. left. apply In_raised_part. exact H1.
-  Qed.
-
-  Lemma iter_sound (one : cfg -> res * cfg) (A : ares) (I : list world) :
-    (forall s r s', In (wd s) I -> one s = (r, s') -> in_res A r (wd s')) ->
-    (forall x, In x (normals (outs A)) -> In x I) ->
-    forall n s r s', In (wd s) I -> iter n one s = (r, s') ->
-      match r with RNormal => In (wd s') I | RRaised k => In (RRaised k, wd s') (outs A) end.
-  Proof.
-    intros Hone Hsub. induction n as [|n IH]; intros s r s' Hin Hit; cbn [iter] in Hit.
-    - inversion Hit; subst. assumption.
-    - destruct (one s) as [r0 s0] eqn:H1. specialize (Hone _ _ _ Hin H1). unfold in_res in Hone.
-      destruct r0 as [|k].
-      + apply (IH s0); [apply Hsub; apply In_normals; exact Hone | assumption].
-      + inversion Hit; subst. exact Hone.
-  Qed.
-
-  Lemma loop_sound n l h F rb : sound F rb ->
-    sound (loop_res h F)
-      (fun s => let (r, s1) := iter n (fun s0 => let (r0, s0') := step f l h s0 in
-                                       match r0 with RNormal => rb s0' | _ => (r0, s0') end) s in
-                match r with RNormal => step f l ENop s1 | _ => (r, s1) end).
-  Proof.
-    intros HF S s r s' Hok Hin Hex. unfold loop_res, in_res in *. cbn zeta in *.
-    revert Hok. generalize (grow loop_fuel (loop_one h F) S). intros I Hok.
-    cbn [okf outs] in *. apply andb_prop in Hok. destruct Hok as [Hok HsubS].
-    apply andb_prop in Hok. destruct Hok as [Hok1 HsubN].
-    pose proof (wsubsetb_spec _ _ HsubS) as HS. pose proof (wsubsetb_spec _ _ HsubN) as HN.
-    pose proof (seq_sound _ _ _ _ (step_sound l h) HF) as Hone. fold (loop_one h F) in Hone.
-    match type of Hex with context [iter ?k ?o s] => destruct (iter k o s) as [ri si] eqn:Hit end.
-    assert (Hone' : forall s0 r0 s0', In (wd s0) I ->
-              (let (r1, s1) := step f l h s0 in match r1 with RNormal => rb s1 | _ => (r1, s1) end) = (r0, s0') ->
-              in_res (loop_one h F I) r0 (wd s0')).
-    { intros s0 r0 s0' Hin0 H0. apply (Hone I s0 r0 s0'); [exact Hok1 | exact Hin0 | exact H0]. }
-    pose proof (iter_sound _ (loop_one h F I) I Hone' HN n s ri si (HS _ Hin) Hit) as Hres.
-    apply In_tunion.
-    destruct ri as [|k].
-    - right. exact (step_sound l ENop I si r s' eq_refl Hres Hex).
-    - inversion Hex; subst. left. apply In_raised_part. exact Hres.
-  Qed.
-
-  Lemma all_kinds_complete k : In k all_kinds.
-  Proof. destruct k; cbn; tauto. Qed.
-
-  Lemma try_sound mkb reraise hs F H rb rh : sound F rb -> sound H rh ->
-    sound (try_res mkb reraise hs F H)
-      (fun s => let (r, s1) := rb s in
-                match r with
-                | RNormal => (RNormal, s1)
-                | RRaised k =>
-                    if catches hs k then
-                      let (r2, s2) := rh (mark mkb s1) in
-                      match r2 with RNormal => (if reraise then r else RNormal, s2) | _ => (r2, s2) end
-                    else (r, s1)
-                end).
-  Proof.
-    intros HF HH S s r s' Hok Hin Hex. unfold try_res, in_res in *. cbn zeta in *. cbn [okf outs] in *.
-    apply andb_prop in Hok. destruct Hok as [Hokb HokH].
-    destruct (rb s) as [r1 sb] eqn:Hb.
-    pose proof (HF S s r1 sb Hokb Hin Hb) as H1. unfold in_res in H1.
-    apply In_tdedup. apply in_app_iff.
-    destruct r1 as [|k].
-    - inversion Hex; subst. left. apply filter_In. split; [exact H1 | reflexivity].
-    - destruct (catches hs k) eqn:Hc.
-      + right. apply in_flat_map. exists k.
-        assert (Hk : In k (filter (catches hs) all_kinds)).
-        { apply filter_In. split; [apply all_kinds_complete | exact Hc]. }
-        split; [exact Hk|].
-        rewrite forallb_forall in HokH. specialize (HokH k Hk).
-        unfold handle_k in *. cbn [okf outs] in *.
-        destruct (rh (mark mkb sb)) as [r2 s2] eqn:Hh.
-        assert (Hmk : wd (mark mkb sb) = mark_w mkb (wd sb)).
-        { unfold mark, mark_w. destruct mkb; reflexivity. }
-        assert (Hin2 : In (wd (mark mkb sb)) (wdedup (map (mark_w mkb) (raisedk k (outs (F S)))))).
-        { rewrite Hmk. apply In_wdedup. apply in_map. apply In_raisedk. exact H1. }
-        pose proof (HH _ _ r2 s2 HokH Hin2 Hh) as H2. unfold in_res in H2.
-        apply in_app_iff.
-        destruct r2 as [|k2]; inversion Hex; subst; clear Hex.
-        * right. apply in_map_iff. exists (wd s'). split; [reflexivity | apply In_normals; exact H2].
-        * left. apply In_raised_part. exact H2.
-      + inversion Hex; subst. left. apply filter_In. split; [exact H1|]. cbn [fst]. rewrite Hc. reflexivity.
-  Qed.
-
-  Lemma choice_sound_l F G ra : sound F ra -> sound (choice_res F G) ra.
-  Proof.
-    intros HF S s r s' Hok Hin Hex. unfold choice_res, in_res in *. cbn zeta in *. cbn [okf outs] in *.
-    apply andb_prop in Hok. destruct Hok as [Hoka Hokb].
-    apply In_tunion. left. exact (HF S s r s' Hoka Hin Hex).
-  Qed.
-
-  Lemma choice_sound_r F G rb : sound G rb -> sound (choice_res F G) rb.
-  Proof.
-    intros HG S s r s' Hok Hin Hex. unfold choice_res, in_res in *. cbn zeta in *. cbn [okf outs] in *.
-    apply andb_prop in Hok. destruct Hok as [Hoka Hokb].
-    apply In_tunion. right. exact (HG S s r s' Hokb Hin Hex).
-  Qed.
-
-  Variable chk : nat -> option bool.   (* branch outcomes fixed by a hypothesis of the theorem *)
-
-  Fixpoint reach (p : prog) : list world -> ares :=
-    match p with
-    | Skip => fun S => mkA (map (fun w => (RNormal, w)) S) true
-    | Step _ e => r_step e
-    | Raise _ k => fun S => mkA (map (fun w => (RRaised k, w)) S) true
-    | Seq a b => seq_res (reach a) (reach b)
-    | Loop _ _ h body => loop_res h (reach body)
-    | Try body h reraise hs => try_res (negb reraise && has_unit body) reraise hs (reach body) (reach h)
-    | Choice id a b =>
-        match chk id with
-        | Some true => reach a
-        | Some false => reach b
-        | None => choice_res (reach a) (reach b)
-        end
-    end.
-
-  Variable cnt : nat -> nat.
-  Variable ch : nat -> bool.
-  Hypothesis chk_ok : forall id b, chk id = Some b -> ch id = b.
-
-  Theorem reach_sound : forall p, sound (reach p) (exec cnt ch f p).
-  Proof.
-    induction p as [|l e|l k|a IHa b IHb|id l h body IHbody|body IHbody h IHh reraise hs|id a IHa b IHb].
-    - intros S s r s' _ Hin Hex. cbn in Hex. inversion Hex; subst. unfold in_res. cbn.
-      apply in_map_iff. exists (wd s'). split; [reflexivity | exact Hin].
-    - exact (step_sound l e).
-    - intros S s r s' _ Hin Hex. cbn in Hex. inversion Hex; subst. unfold in_res. cbn.
-      apply in_map_iff. exists (wd s). split; [reflexivity | exact Hin].
-    - exact (seq_sound _ _ _ _ IHa IHb).
-    - exact (loop_sound (cnt id) l h _ _ IHbody).
-    - exact (try_sound _ reraise hs _ _ _ _ IHbody IHh).
-    - cbn [reach exec]. destruct (chk id) as [[|]|] eqn:Hc.
-      + rewrite (chk_ok _ _ Hc). exact IHa.
-      + rewrite (chk_ok _ _ Hc). exact IHb.
-      + destruct (ch id); [exact (choice_sound_l _ _ _ IHa) | exact (choice_sound_r _ _ _ IHb)].
-  Qed.
-End Analysis.
-
-(* ---------------------------------------------------------------- all worlds *)
 Definition all_status := [SNone; SUnfinished; SFail; SOk; SOther].
 Definition bools := [true; false].
 Definition all_worlds : list world :=
@@ -378,11 +53,315 @@ Proof.
   apply in_map. apply in_bools.
 Qed.
 
+(* { g w | sel w } *)
+Definition collect_from (sel : world -> bool) (g : world -> world) (l : list world) (acc : wset) : wset :=
+  fold_left (fun acc w => if sel w then wadd (g w) acc else acc) l acc.
+Definition collect (sel : world -> bool) (g : world -> world) : wset := collect_from sel g all_worlds 0%N.
+
+Lemma collect_mono sel g l : forall acc i, N.testbit acc i = true -> N.testbit (collect_from sel g l acc) i = true.
+Proof.
+  induction l as [|x l IH]; intros acc i H; cbn [collect_from fold_left].
+  - exact H.
+  - apply IH. destruct (sel x); [|exact H]. unfold wadd. apply N.setbit_iff. right. exact H.
+Qed.
+
+Lemma collect_from_spec sel g l : forall acc w, In w l -> sel w = true -> wmem (g w) (collect_from sel g l acc) = true.
+Proof.
+  induction l as [|x l IH]; intros acc w Hin Hs; [contradiction Hin|].
+  cbn [collect_from fold_left]. destruct Hin as [->|Hin].
+  - rewrite Hs. unfold wmem. apply collect_mono. unfold wadd. apply N.setbit_iff. left. reflexivity.
+  - apply IH; assumption.
+Qed.
+
+Lemma collect_spec sel g w : sel w = true -> wmem (g w) (collect sel g) = true.
+Proof. intros H. apply collect_from_spec; [apply all_worlds_complete | exact H]. Qed.
+
+Definition image (g : world -> world) (S : wset) : wset := collect (fun w => wmem w S) g.
+Lemma wmem_image g S w : wmem w S = true -> wmem (g w) (image g S) = true.
+Proof. intros H. unfold image. apply (collect_spec (fun w => wmem w S) g w H). Qed.
+
+Definition of_pred (p : world -> bool) : wset := collect p (fun w => w).
+Lemma wmem_of_pred p w : p w = true -> wmem w (of_pred p) = true.
+Proof. intros H. exact (collect_spec p (fun w => w) w H). Qed.
+
+(* one set per exception kind *)
+Record r7 := mkR7 { rRuntime : wset; rValue : wset; rOS : wset; rTimeout : wset; rMemory : wset; rOther : wset; rBase : wset }.
+Definition getk (k : ekind) (r : r7) : wset :=
+  match k with KRuntime => rRuntime r | KValue => rValue r | KOS => rOS r | KTimeout => rTimeout r
+             | KMemory => rMemory r | KOther => rOther r | KBase => rBase r end.
+Definition mk7 (f : ekind -> wset) : r7 :=
+  mkR7 (f KRuntime) (f KValue) (f KOS) (f KTimeout) (f KMemory) (f KOther) (f KBase).
+Lemma getk_mk7 k f : getk k (mk7 f) = f k.
+Proof. destruct k; reflexivity. Qed.
+
+Definition ekind_eqb (a b : ekind) : bool :=
+  match a, b with
+  | KRuntime, KRuntime | KValue, KValue | KOS, KOS | KTimeout, KTimeout | KMemory, KMemory
+  | KOther, KOther | KBase, KBase => true
+  | _, _ => false
+  end.
+Lemma ekind_eqb_eq a b : ekind_eqb a b = true <-> a = b.
+Proof. destruct a, b; cbn; split; intros H; try reflexivity; discriminate. Qed.
+Definition kin (k : ekind) (ks : list ekind) : bool := existsb (ekind_eqb k) ks.
+Lemma kin_In k ks : In k ks -> kin k ks = true.
+Proof. intros H. unfold kin. apply existsb_exists. exists k. split; [exact H | apply ekind_eqb_eq; reflexivity]. Qed.
+
+Definition big_or (f : ekind -> wset) (l : list ekind) : wset := fold_right (fun k acc => N.lor (f k) acc) 0%N l.
+Lemma big_or_spec f l k w : In k l -> wmem w (f k) = true -> wmem w (big_or f l) = true.
+Proof.
+  induction l as [|x l IH]; intros Hin Hw; [contradiction Hin|]. cbn [big_or fold_right].
+  destruct Hin as [->|Hin]; [apply wmem_union_l; exact Hw | apply wmem_union_r; apply IH; assumption].
+Qed.
+
+Lemma status_eqb_eq a b : status_eqb a b = true <-> a = b.
+Proof. destruct a, b; cbn; split; intros H; try reflexivity; discriminate. Qed.
+
+Lemma all_kinds_complete k : In k all_kinds.
+Proof. destruct k; cbn; tauto. Qed.
+
+(* ---------------------------------------------------------------- collecting semantics *)
+(* aN: worlds in which the program can end normally; aR k: worlds in which it can end raising kind k *)
+Record ares := mkA { aN : wset; aR : r7; okf : bool }.
+
+Definition in_res (a : ares) (r : res) (w : world) : Prop :=
+  match r with RNormal => wmem w (aN a) = true | RRaised k => wmem w (getk k (aR a)) = true end.
+
+Definition mark_w (b : bool) (w : world) : world :=
+  if b then mkW (st w) (ex w) (co w) (so w) (ix w) true else w.
+
+Section Analysis.
+  Variable ks : list ekind.      (* the exception kinds a failing step may raise *)
+
+  Definition r_step (e : eff) (S : wset) : ares :=
+    let bad := N.lor S (image (partial e) S) in
+    mkA (image (apply e) S) (mk7 (fun k => if kin k ks then bad else 0%N)) true.
+
+  Definition seq_res (F G : wset -> ares) (S : wset) : ares :=
+    let ra := F S in
+    let rb := G (aN ra) in
+    mkA (aN rb) (mk7 (fun k => N.lor (getk k (aR ra)) (getk k (aR rb)))) (okf ra && okf rb).
+
+  Definition loop_one (h : eff) (F : wset -> ares) : wset -> ares := seq_res (r_step h) F.
+
+  Fixpoint grow (fuel : nat) (F : wset -> ares) (I : wset) : wset :=
+    match fuel with
+    | O => I
+    | S k => let I' := N.lor (aN (F I)) I in if N.eqb I' I then I else grow k F I'
+    end.
+
+  Definition loop_fuel : nat := 200.
+
+  Definition loop_res (h : eff) (F : wset -> ares) (S : wset) : ares :=
+    let I := grow loop_fuel (loop_one h F) S in
+    let r1 := loop_one h F I in
+    let rl := r_step ENop I in
+    mkA (aN rl) (mk7 (fun k => N.lor (getk k (aR r1)) (getk k (aR rl))))
+        (okf r1 && wsubset (aN r1) I && wsubset S I).
+
+  (* the handler's analysis per exception kind, computed once per kind *)
+  Definition kidx (k : ekind) : nat :=
+    match k with KRuntime => 0 | KValue => 1 | KOS => 2 | KTimeout => 3 | KMemory => 4 | KOther => 5 | KBase => 6 end.
+  Definition no_res : ares := mkA 0%N (mk7 (fun _ => 0%N)) true.
+  Definition per_kind (g : ekind -> ares) : ekind -> ares :=
+    let l := map g all_kinds in fun k => nth (kidx k) l no_res.
+  Lemma per_kind_spec g k : per_kind g k = g k.
+  Proof. destruct k; reflexivity. Qed.
+
+  Definition try_res (mkb reraise : bool) (hs : list hclass) (F H : wset -> ares) (S : wset) : ares :=
+    let rb := F S in
+    let caught := filter (catches hs) all_kinds in
+    let hk := per_kind (fun k => if catches hs k then H (image (mark_w mkb) (getk k (aR rb))) else no_res) in
+    mkA (N.lor (aN rb) (if reraise then 0%N else big_or (fun k => aN (hk k)) caught))
+        (mk7 (fun k' => N.lor (if catches hs k' then (if reraise then aN (hk k') else 0%N) else getk k' (aR rb))
+                              (big_or (fun k => getk k' (aR (hk k))) caught)))
+        (okf rb && forallb (fun k => okf (hk k)) caught).
+
+  Definition choice_res (F G : wset -> ares) (S : wset) : ares :=
+    let ra := F S in
+    let rb := G S in
+    mkA (N.lor (aN ra) (aN rb)) (mk7 (fun k => N.lor (getk k (aR ra)) (getk k (aR rb)))) (okf ra && okf rb).
+
+  (* [sound F run]: F over-approximates what [run] can do from any configuration whose world is in S *)
+  Definition sound (F : wset -> ares) (run : cfg -> res * cfg) : Prop :=
+    forall S s r s', okf (F S) = true -> wmem (wd s) S = true -> run s = (r, s') -> in_res (F S) r (wd s').
+
+  Variable f : nat -> fault.
+  Hypothesis f_kinds : forall i, match f i with FNone => True | FBefore k => In k ks | FPartial k => In k ks end.
+
+  Lemma step_sound l e : sound (r_step e) (step f l e).
+  Proof.
+    intros S s r s' _ Hin Hst. unfold step in Hst. unfold r_step, in_res.
+    pose proof (f_kinds (cn s)) as Hk.
+    destruct (f (cn s)) as [|k|k]; inversion Hst; subst; clear Hst; cbn [wd aN aR].
+    - apply wmem_image. exact Hin.
+    - rewrite getk_mk7, (kin_In _ _ Hk). apply wmem_union_l. exact Hin.
+    - rewrite getk_mk7, (kin_In _ _ Hk). apply wmem_union_r. apply wmem_image. exact Hin.
+  Qed.
+
+  Lemma seq_sound F G ra rb : sound F ra -> sound G rb ->
+    sound (seq_res F G) (fun s => let (r, s1) := ra s in match r with RNormal => rb s1 | _ => (r, s1) end).
+  Proof.
+    intros HF HG S s r s' Hok Hin Hex. unfold seq_res in *. cbn zeta in *. cbn [okf] in Hok.
+    apply andb_prop in Hok. destruct Hok as [Hoka Hokb].
+    destruct (ra s) as [r1 s1] eqn:Ha.
+    pose proof (HF S s r1 s1 Hoka Hin Ha) as H1.
+    destruct r1 as [|k].
+    - cbn [in_res] in H1. pose proof (HG _ s1 r s' Hokb H1 Hex) as H2.
+      destruct r as [|k2]; unfold in_res in *; cbn [aN aR] in *; [exact H2|].
+      rewrite getk_mk7. apply wmem_union_r. exact H2.
+    - inversion Hex; subst. unfold in_res in *. cbn [aR]. rewrite getk_mk7. apply wmem_union_l. exact H1.
+  Qed.
+
+  Lemma iter_sound (one : cfg -> res * cfg) (A : ares) (I : wset) :
+    (forall s r s', wmem (wd s) I = true -> one s = (r, s') -> in_res A r (wd s')) ->
+    (forall x, wmem x (aN A) = true -> wmem x I = true) ->
+    forall n s r s', wmem (wd s) I = true -> iter n one s = (r, s') ->
+      match r with RNormal => wmem (wd s') I = true | RRaised k => wmem (wd s') (getk k (aR A)) = true end.
+  Proof.
+    intros Hone Hsub. induction n as [|n IH]; intros s r s' Hin Hit; cbn [iter] in Hit.
+    - inversion Hit; subst. assumption.
+    - destruct (one s) as [r0 s0] eqn:H1. specialize (Hone _ _ _ Hin H1).
+      destruct r0 as [|k].
+      + apply (IH s0); [apply Hsub; exact Hone | assumption].
+      + inversion Hit; subst. exact Hone.
+  Qed.
+
+  Lemma loop_sound n l h F rb : sound F rb ->
+    sound (loop_res h F)
+      (fun s => let (r, s1) := iter n (fun s0 => let (r0, s0') := step f l h s0 in
+                                       match r0 with RNormal => rb s0' | _ => (r0, s0') end) s in
+                match r with RNormal => step f l ENop s1 | _ => (r, s1) end).
+  Proof.
+    intros HF S s r s' Hok Hin Hex. unfold loop_res in *. cbn zeta in *.
+    revert Hok. generalize (grow loop_fuel (loop_one h F) S). intros I Hok.
+    cbn [okf] in Hok. apply andb_prop in Hok. destruct Hok as [Hok HsubS].
+    apply andb_prop in Hok. destruct Hok as [Hok1 HsubN].
+    pose proof (wsubset_spec _ _ HsubS) as HS. pose proof (wsubset_spec _ _ HsubN) as HN.
+    pose proof (seq_sound _ _ _ _ (step_sound l h) HF) as Hone. fold (loop_one h F) in Hone.
+    match type of Hex with context [iter ?k ?o s] => destruct (iter k o s) as [ri si] eqn:Hit end.
+    assert (Hone' : forall s0 r0 s0', wmem (wd s0) I = true ->
+              (let (r1, s1) := step f l h s0 in match r1 with RNormal => rb s1 | _ => (r1, s1) end) = (r0, s0') ->
+              in_res (loop_one h F I) r0 (wd s0')).
+    { intros s0 r0 s0' Hin0 H0. apply (Hone I s0 r0 s0'); [exact Hok1 | exact Hin0 | exact H0]. }
+    pose proof (iter_sound _ (loop_one h F I) I Hone' HN n s ri si (HS _ Hin) Hit) as Hres.
+    destruct ri as [|k].
+    - pose proof (step_sound l ENop I si r s' eq_refl Hres Hex) as Hl.
+      destruct r as [|k2]; unfold in_res in *; cbn [aN aR] in *; [exact Hl|].
+      rewrite getk_mk7. apply wmem_union_r. exact Hl.
+    - inversion Hex; subst. unfold in_res. cbn [aR]. rewrite getk_mk7. apply wmem_union_l. exact Hres.
+  Qed.
+
+  Lemma try_sound mkb reraise hs F H rb rh : sound F rb -> sound H rh ->
+    sound (try_res mkb reraise hs F H)
+      (fun s => let (r, s1) := rb s in
+                match r with
+                | RNormal => (RNormal, s1)
+                | RRaised k =>
+                    if catches hs k then
+                      let (r2, s2) := rh (mark mkb s1) in
+                      match r2 with RNormal => (if reraise then r else RNormal, s2) | _ => (r2, s2) end
+                    else (r, s1)
+                end).
+  Proof.
+    intros HF HH S s r s' Hok Hin Hex. unfold try_res in *. cbn zeta in *. cbn [okf] in Hok.
+    apply andb_prop in Hok. destruct Hok as [Hokb HokH].
+    destruct (rb s) as [r1 sb] eqn:Hb.
+    pose proof (HF S s r1 sb Hokb Hin Hb) as H1.
+    destruct r1 as [|k].
+    - inversion Hex; subst. unfold in_res in *. cbn [aN]. apply wmem_union_l. exact H1.
+    - cbn [in_res] in H1. destruct (catches hs k) eqn:Hc.
+      + assert (Hk : In k (filter (catches hs) all_kinds)).
+        { apply filter_In. split; [apply all_kinds_complete | exact Hc]. }
+        set (g := fun k0 => if catches hs k0 then H (image (mark_w mkb) (getk k0 (aR (F S)))) else no_res) in *.
+        assert (Hg : per_kind g k = H (image (mark_w mkb) (getk k (aR (F S))))).
+        { rewrite per_kind_spec. unfold g. rewrite Hc. reflexivity. }
+        rewrite forallb_forall in HokH. specialize (HokH k Hk). rewrite Hg in HokH.
+        destruct (rh (mark mkb sb)) as [r2 s2] eqn:Hh.
+        assert (Hmk : wd (mark mkb sb) = mark_w mkb (wd sb)).
+        { unfold mark, mark_w. destruct mkb; reflexivity. }
+        assert (Hin2 : wmem (wd (mark mkb sb)) (image (mark_w mkb) (getk k (aR (F S)))) = true).
+        { rewrite Hmk. apply wmem_image. exact H1. }
+        pose proof (HH _ _ r2 s2 HokH Hin2 Hh) as H2. rewrite <- Hg in H2.
+        destruct r2 as [|k2]; inversion Hex; subst; clear Hex.
+        * cbn [in_res] in H2. destruct reraise; unfold in_res; cbn [aN aR].
+          -- rewrite getk_mk7, Hc. apply wmem_union_l. exact H2.
+          -- apply wmem_union_r. exact (big_or_spec (fun k0 => aN (per_kind g k0)) _ k _ Hk H2).
+        * cbn [in_res] in H2. unfold in_res. cbn [aR]. rewrite getk_mk7. apply wmem_union_r.
+          exact (big_or_spec (fun k0 => getk k2 (aR (per_kind g k0))) _ k _ Hk H2).
+      + inversion Hex; subst. unfold in_res. cbn [aR]. rewrite getk_mk7, Hc. apply wmem_union_l. exact H1.
+  Qed.
+
+  Lemma choice_sound_l F G ra : sound F ra -> sound (choice_res F G) ra.
+  Proof.
+    intros HF S s r s' Hok Hin Hex. unfold choice_res in *. cbn zeta in *. cbn [okf] in Hok.
+    apply andb_prop in Hok. destruct Hok as [Hoka Hokb].
+    pose proof (HF S s r s' Hoka Hin Hex) as H1.
+    destruct r as [|k]; unfold in_res in *; cbn [aN aR]; [|rewrite getk_mk7]; apply wmem_union_l; exact H1.
+  Qed.
+
+  Lemma choice_sound_r F G rb : sound G rb -> sound (choice_res F G) rb.
+  Proof.
+    intros HG S s r s' Hok Hin Hex. unfold choice_res in *. cbn zeta in *. cbn [okf] in Hok.
+    apply andb_prop in Hok. destruct Hok as [Hoka Hokb].
+    pose proof (HG S s r s' Hokb Hin Hex) as H1.
+    destruct r as [|k]; unfold in_res in *; cbn [aN aR]; [|rewrite getk_mk7]; apply wmem_union_r; exact H1.
+  Qed.
+
+  Variable chk : nat -> option bool.   (* branch outcomes fixed by a hypothesis of the theorem *)
+
+  Definition empty7 : r7 := mk7 (fun _ => 0%N).
+
+  Fixpoint reach (p : prog) : wset -> ares :=
+    match p with
+    | Skip => fun S => mkA S empty7 true
+    | Step _ e => r_step e
+    | Raise _ k => fun S => mkA 0%N (mk7 (fun k' => if ekind_eqb k' k then S else 0%N)) true
+    | Seq a b => seq_res (reach a) (reach b)
+    | Loop _ _ h body => loop_res h (reach body)
+    | Try body h reraise hs => try_res (negb reraise && has_unit body) reraise hs (reach body) (reach h)
+    | Choice id a b =>
+        match chk id with
+        | Some true => reach a
+        | Some false => reach b
+        | None => choice_res (reach a) (reach b)
+        end
+    end.
+
+  Variable cnt : nat -> nat.
+  Variable ch : nat -> bool.
+  Hypothesis chk_ok : forall id b, chk id = Some b -> ch id = b.
+
+  Theorem reach_sound : forall p, sound (reach p) (exec cnt ch f p).
+  Proof.
+    induction p as [|l e|l k|a IHa b IHb|id l h body IHbody|body IHbody h IHh reraise hs|id a IHa b IHb].
+    - intros S s r s' _ Hin Hex. cbn in Hex. inversion Hex; subst. unfold in_res. cbn. exact Hin.
+    - exact (step_sound l e).
+    - intros S s r s' _ Hin Hex. cbn in Hex. inversion Hex; subst. unfold in_res. cbn [reach aR].
+      rewrite getk_mk7. replace (ekind_eqb k k) with true by (symmetry; apply ekind_eqb_eq; reflexivity).
+      exact Hin.
+    - exact (seq_sound _ _ _ _ IHa IHb).
+    - exact (loop_sound (cnt id) l h _ _ IHbody).
+    - exact (try_sound _ reraise hs _ _ _ _ IHbody IHh).
+    - cbn [reach exec]. destruct (chk id) as [[|]|] eqn:Hc.
+      + rewrite (chk_ok _ _ Hc). exact IHa.
+      + rewrite (chk_ok _ _ Hc). exact IHb.
+      + destruct (ch id); [exact (choice_sound_l _ _ _ IHa) | exact (choice_sound_r _ _ _ IHb)].
+  Qed.
+End Analysis.
+
 (* ---------------------------------------------------------------- the checker and its soundness *)
+Definition holds_on (S : wset) (P : world -> bool) : bool :=
+  forallb (fun w => if wmem w S then P w else true) all_worlds.
+Lemma holds_on_spec S P w : holds_on S P = true -> wmem w S = true -> P w = true.
+Proof.
+  unfold holds_on. rewrite forallb_forall. intros H Hw. specialize (H w (all_worlds_complete w)).
+  rewrite Hw in H. exact H.
+Qed.
+
 Definition check (ks : list ekind) (chk : nat -> option bool) (p : prog) (init : world -> bool)
                  (P : res -> world -> bool) : bool :=
-  let a := reach ks chk p (filter init all_worlds) in
-  okf a && forallb (fun t => P (fst t) (snd t)) (outs a).
+  let a := reach ks chk p (of_pred init) in
+  okf a && holds_on (aN a) (P RNormal) && forallb (fun k => holds_on (getk k (aR a)) (P (RRaised k))) all_kinds.
 
 Theorem check_sound ks chk p init P :
   check ks chk p init P = true ->
@@ -394,11 +373,13 @@ Theorem check_sound ks chk p init P :
     P r (wd s) = true.
 Proof.
   unfold check. intros H cnt ch f w0 r s Hf Hchk Hinit Hex.
-  apply andb_prop in H. destruct H as [Hok HP].
-  assert (Hin : In (wd (mkC 0 w0 [])) (filter init all_worlds)).
-  { cbn [wd]. apply filter_In. split; [apply all_worlds_complete | assumption]. }
+  apply andb_prop in H. destruct H as [H HR]. apply andb_prop in H. destruct H as [Hok HN].
+  assert (Hin : wmem (wd (mkC 0 w0 [])) (of_pred init) = true).
+  { cbn [wd]. apply wmem_of_pred. exact Hinit. }
   pose proof (reach_sound ks f Hf chk cnt ch Hchk p _ _ r s Hok Hin Hex) as Hr.
-  unfold in_res in Hr. rewrite forallb_forall in HP. exact (HP _ Hr).
+  destruct r as [|k]; cbn [in_res] in Hr.
+  - exact (holds_on_spec _ _ _ HN Hr).
+  - rewrite forallb_forall in HR. exact (holds_on_spec _ _ _ (HR k (all_kinds_complete k)) Hr).
 Qed.
 
 Lemma any_kind f : forall i : nat, match f i with FNone => True | FBefore k => In k all_kinds | FPartial k => In k all_kinds end.
